@@ -45,6 +45,18 @@ def run(ctx):
         if limit == 0:
             ctx.samples.append(json.loads(hs[len(hs) // 2]))
 
+    # free-running asynchronous cancellation (no gate): at most one instruction passes the test after Cancel returned
+    af = ctx.path("async.ndjson")
+    ntr = 200 if ctx.quick else 3000
+    ctx.vh(["c07-async", "-trials", str(ntr), "-out", af], timeout=3000)
+    ares = vlib.read_ndjson(af)
+    if not ares[-1].get("summary"):
+        raise vlib.MachineryError("async run incomplete")
+    ctx.log("asynchronous cancellation: %d trials, %d with problems" % (ntr, ares[-1]["problems"]))
+    for rr in ares[:-1]:
+        ctx.violation("async:%s" % rr["problems"][0].split(" ")[1][:30], "trial %d program %d: %s" % (rr["trial"], rr["prog"], rr["problems"]), {"async": rr})
+    nrep += ntr
+
     scale, budget = (1, 1500) if ctx.quick else (6, 6000)
     pf, rf = ctx.path("progs.ndjson"), ctx.path("runs.ndjson")
     ctx.vh(["c07-sweep", "-progs", pf, "-runs", rf, "-scale", str(scale), "-budget", str(budget)], timeout=3000)
